@@ -134,7 +134,7 @@ def run_case(case):
         else:  # documented default: standard output
             res = core.cli(["phase", gaf, d + "/h.tsv"], capture_stdout=True)
         core.check(res[0] == "ok", "phase failed: %s", res)
-        text = res[1] if via == "cli_stdout" else core.read_text(d + "/out.gaf")
+        text = res[1] if via == "cli_stdout" else core.read_output(d + "/out.gaf", "phase")
     out = text.split("\n")
     if out and out[-1] == "":
         out = out[:-1]
